@@ -12,6 +12,8 @@ On the proposals of the rule set at an instant (`none` = not applicable):
 * `arbitrate_nan`: a single applicable rule proposing `nan` (square root of a negative number in
   StartLimitCurrent) ⇒ `ValueError` from the duty-cycle setter (repair D8; before it, `nan` was
   stored and recorded);
+* `compute_applies_control`: the duty cycle recorded at an instant is the controller's output on that
+  instant's own state, held or not;
 * `arbitrate_range` and `recorded_in_range`: every duty cycle recorded along any history lies in
   [-1, 1] (the attribute starts in range: constructor default 1 or the validating setter).
 -/
@@ -159,8 +161,22 @@ theorem exec_error_propagates (c : Cfg) (o : Op) (os : List Op) (s : St) (e : Er
     (h : applyOp c s o = .error e) : exec c (o :: os) s = .error e := by
   simp [exec, h]
 
+/-- after motor control is applied at an instant, the recorded duty cycle is the controller's output on
+    that instant's state — also while the powertrain is held by self-locking (control is never skipped) -/
+theorem compute_applies_control (c : Cfg) (f : CtlIn → Except Err Q) (hc : c.control = some f) (s s' : St) (t : Q)
+    (h : compute c s t = .ok s') :
+    ∃ r i, s'.recs = s.recs ++ [r] ∧ i.time = t ∧ i.pos = r.pos ∧ i.speed = r.speed ∧
+      i.load0 = r.ltorque.headD 0 ∧ f i = .ok r.pwm ∧ s'.pwm = r.pwm := by
+  unfold compute at h; simp only [hc] at h
+  split at h
+  · simp at h
+  · rename_i pwm hp
+    simp only [Except.ok.injEq] at h; subst h
+    exact ⟨_, _, rfl, rfl, rfl, rfl, rfl, hp, rfl⟩
+
 /-! ### non-vacuity -/
 example : arbitrate [none, some (some 5), none] = .ok 1 := by decide +kernel
+example : arbitrate [none, some (some 0)] = .ok 0 := by decide +kernel      -- a proposal of exactly 0 is a proposal
 example : arbitrate [some (some (1/2)), some (some (1/3))] = .error .valueE := by decide +kernel
 example : arbitrate [none, some none] = .error .valueE := by decide +kernel
 
